@@ -19,9 +19,10 @@ import vlib
 PAIRS = ["tworeg", "samereg", "samerepo", "reg2dir", "dir2reg", "dir2dir"]
 REG_TARGET = ["tworeg", "samereg", "samerepo", "dir2reg"]
 INDEX_SHAPES = ["idx2", "nested", "docker", "artidx", "bentry"]
-REF_SHAPES = ["art", "artidx"]
+REF_SHAPES = ["art", "artidx", "artshare"]
 DTAG_SHAPES = ["dtag", "loop", "art"]
 AT_SBOM = "application/vnd.zzverif.sbom.v1"
+AT_SIG = "application/vnd.zzverif.sig.v1"
 
 # fault kinds: how the client sees them (see internal/reghttp): 503/404/401/403 end the request,
 # 429/500/reset/trunc are retried, resetall = the connection fails on every attempt
@@ -113,7 +114,11 @@ class Engine:
             out.append({"platforms": "linux/amd64"})
         if shape in REF_SHAPES:
             out += [{"referrers": 1}, {"referrers": 1, "reffilter": AT_SBOM}, {"referrers": 1, "force": 1},
-                    {"referrers": 1, "fast": 1}]
+                    {"referrers": 1, "fast": 1},
+                    # two filter options selecting different referrers, in both orders; a separate referrer target
+                    {"referrers": 1, "reffilter": AT_SBOM, "reffilter2": AT_SIG},
+                    {"referrers": 1, "reffilter": AT_SIG, "reffilter2": AT_SBOM},
+                    {"referrers": 1, "reftgt": 1}, {"referrers": 1, "reftgt": 1, "force": 1}]
         if shape in DTAG_SHAPES:
             out += [{"dtags": 1}, {"dtags": 1, "force": 1}]
         if shape == "art":
@@ -163,6 +168,8 @@ class Engine:
             for pair in pairs:
                 for opts in self.option_sets(sh):
                     if opt_filter and not opt_filter(opts):
+                        continue
+                    if opts.get("reftgt") and pair == "samerepo":
                         continue
                     feats = self.features(sh, opts)
                     if not full:
@@ -568,8 +575,17 @@ def conf_to_scn(engine, c, steps, origin):
     for k in ("force", "referrers", "dtags", "inclext", "fast"):
         if c.get(k):
             opts[k] = 1
-    if c.get("filter") == "sbom":
-        opts["reffilter"] = AT_SBOM
+    fl = c.get("filter") or []
+    if isinstance(fl, str):
+        fl = [fl] if fl else []
+    fl = [AT_SBOM if f == "sbom" else AT_SIG for f in fl]
+    engine.rng.shuffle(fl)                  # the order of the filter options must not matter
+    if fl:
+        opts["reffilter"] = fl[0]
+    if len(fl) > 1:
+        opts["reffilter2"] = fl[1]
+    if c.get("refTgt"):
+        opts["reftgt"] = 1
     if c.get("plats"):
         opts["platforms"] = "linux/amd64"
     script = [{"op": s["op"], "host": s.get("host", ""), "class": s.get("class", ""), "n": s.get("n", ""),
